@@ -4,7 +4,9 @@
    mode: Call is logged before the call starts, Ret after it returned):
       Call(p, op, k, n)   op in {ins, del, look, deln};  n = id of the node created (ins) / targeted (deln)
       Ret(p, ok)
-      Walk(items)         a scan of the structure while no call is in progress
+      Walk(items)         a scan of the structure (or of a new nitro snapshot, with Count) while no call is in progress
+      RScan(sn, items)    a concurrent reader's scan of an open nitro snapshot: must equal that snapshot's Walk
+      Phys(items, ...)    nitro: the linked nodes after every snapshot was closed and a collection pass forced
    The state change of a call is the internal step Lin(p) somewhere between its Call and its Ret.  The
    log is accepted iff SOME placement of the Lin steps explains every result and every walk: TLC searches
    them all.  Accepted == the end of the log is reachable; the runner checks the invariant NotAccepted
@@ -14,23 +16,23 @@
    Set semantics: ins succeeds iff no equal key is present; del iff one is (and removes that node);
    deln(n) iff node n is present (exactly one caller can win); look reports presence. *)
 EXTENDS Integers, Sequences, FiniteSets, TLC, Json, TLCExt
-VARIABLES l, set, pend
-lvars == <<l, set, pend>>
+VARIABLES l, set, pend, views
+lvars == <<l, set, pend, views>>
 TLog == ndJsonDeserialize("trace.ndjson")
 Ev == TLog[l]
 N == Len(TLog)
 NoOp == [op |-> "none", k |-> 0, n |-> 0, st |-> "idle", res |-> FALSE]
 KeysIn(S) == {x[1] : x \in S}                 \* set elements are <<key, node id>>
-TInit == TLCSet(1, 1) /\ l = 1 /\ set = {} /\ pend = [p \in {} |-> NoOp]
+TInit == TLCSet(1, 1) /\ l = 1 /\ set = {} /\ pend = [p \in {} |-> NoOp] /\ views = <<>>
 Mark == TLCSet(1, IF TLCGet(1) < l' THEN l' ELSE TLCGet(1))
 Step(e) == l <= N /\ Ev.e = e /\ l' = l + 1 /\ Mark
 TReset == /\ l <= N /\ Ev.e \in {"SlInit", "WrInit"} /\ l' = l + 1 /\ Mark
-          /\ set' = {} /\ pend' = [p \in {Ev.procs[i] : i \in 1..Len(Ev.procs)} |-> NoOp]
-TSkip == /\ l <= N /\ Ev.e \in {"S", "SlEnd", "Quiesce", "WrEnd"} /\ l' = l + 1 /\ Mark /\ UNCHANGED <<set, pend>>
+          /\ set' = {} /\ pend' = [p \in {Ev.procs[i] : i \in 1..Len(Ev.procs)} |-> NoOp] /\ views' = <<>>
+TSkip == /\ l <= N /\ Ev.e \in {"S", "SlEnd", "Quiesce", "WrEnd", "M", "Closed", "Fault"} /\ l' = l + 1 /\ Mark /\ UNCHANGED <<set, pend, views>>
 TCall == /\ Step("Call") /\ pend[Ev.p].st = "idle"
          /\ pend' = [pend EXCEPT ![Ev.p] = [op |-> Ev.op, k |-> Ev.k, n |-> Ev.n, st |-> "called", res |-> FALSE]]
-         /\ UNCHANGED set
-Lin(p) == /\ pend[p].st = "called" /\ UNCHANGED l
+         /\ UNCHANGED <<set, views>>
+Lin(p) == /\ pend[p].st = "called" /\ UNCHANGED <<l, views>>
           /\ LET o == pend[p] IN
              CASE o.op = "ins" -> LET ok == o.k \notin KeysIn(set) IN
                                   /\ set' = (IF ok THEN set \cup {<<o.k, o.n>>} ELSE set)
@@ -44,14 +46,28 @@ Lin(p) == /\ pend[p].st = "called" /\ UNCHANGED l
                [] o.op = "look" -> /\ set' = set
                                    /\ pend' = [pend EXCEPT ![p].st = "lin", ![p].res = (o.k \in KeysIn(set))]
 TRet == /\ Step("Ret") /\ pend[Ev.p].st = "lin" /\ pend[Ev.p].res = Ev.ok
-        /\ pend' = [pend EXCEPT ![Ev.p] = NoOp] /\ UNCHANGED set
+        /\ pend' = [pend EXCEPT ![Ev.p] = NoOp] /\ UNCHANGED <<set, views>>
 RECURSIVE SortSet(_)
 SortSet(S) == IF S = {} THEN <<>> ELSE LET m == CHOOSE x \in S : \A y \in S : x <= y IN <<m>> \o SortSet(S \ {m})
-TWalk == /\ Step("Walk") /\ \A p \in DOMAIN pend : pend[p].st = "idle"
-         /\ Ev.items = SortSet(KeysIn(set)) /\ Cardinality(set) = Len(Ev.items)
+AllIdle == \A p \in DOMAIN pend : pend[p].st = "idle"
+RECURSIVE SortPairs(_)
+SortPairs(S) == IF S = {} THEN <<>> ELSE LET m == CHOOSE x \in S : \A y \in S : x[1] <= y[1] IN <<m>> \o SortPairs(S \ {m})
+(* a scan at quiescence: keys only (skiplist driver) or <<key, creating operation>> pairs (nitro driver) *)
+ItemsMatch == IF "count" \in DOMAIN Ev \/ Ev.e = "Phys"
+                THEN Ev.items = SortPairs(set)
+                ELSE Ev.items = SortSet(KeysIn(set)) /\ Cardinality(set) = Len(Ev.items)
+TWalk == /\ Step("Walk") /\ AllIdle /\ ItemsMatch
+         /\ ("count" \in DOMAIN Ev => Ev.count = Cardinality(set) /\ Ev.itemscount = Cardinality(set))
+         /\ views' = (IF "sn" \in DOMAIN Ev THEN [s \in (DOMAIN views) \cup {Ev.sn} |-> IF s = Ev.sn THEN Ev.items ELSE views[s]] ELSE views)
          /\ UNCHANGED <<set, pend>>
+(* a reader's scan / visit of an open snapshot, concurrent with writers: exactly the snapshot's content (C01) *)
+TRScan == /\ Step("RScan") /\ Ev.sn \in DOMAIN views /\ Ev.items = views[Ev.sn] /\ UNCHANGED <<set, pend, views>>
+(* every snapshot closed and a collection pass forced: exactly the live items remain linked (C06), statistics agree *)
+TPhys == /\ Step("Phys") /\ AllIdle /\ ItemsMatch
+         /\ Ev.marked = 0 /\ Ev.softdel = 0 /\ Ev.nodes = Len(Ev.items) /\ Ev.statmem = Ev.walkmem
+         /\ UNCHANGED <<set, pend, views>>
 TDone == l = N + 1 /\ UNCHANGED lvars
-TNext == TReset \/ TSkip \/ TCall \/ (\E p \in DOMAIN pend : Lin(p)) \/ TRet \/ TWalk \/ TDone
+TNext == TReset \/ TSkip \/ TCall \/ (\E p \in DOMAIN pend : Lin(p)) \/ TRet \/ TWalk \/ TRScan \/ TPhys \/ TDone
 TSpec == TInit /\ [][TNext]_lvars
 NotAccepted == l # N + 1
 Post == PrintT(<<"HIGHWATER", TLCGet(1)>>)
